@@ -1,7 +1,7 @@
 SPECIFICATION Spec
 CONSTANTS
   Configs <- FineQuick
-  Fix = FALSE
+  Fix = TRUE
   EmitGen = FALSE
   Seed = 0
 INVARIANTS NeverGone
